@@ -511,6 +511,16 @@ Definition ob_private_client_owned : bool :=
   && existsb (fun u : lname * lname => match u with (fn, use) =>
        name_is "Client.DialAndSendWithContext" fn && name_is "arg:c.SendWithSMTPClient" use end) smtp_client_var_uses.
 
+(* writes through pointer PARAMETERS: package smtp has none (in particular smtp.Client.StartTLS never assigns to a field
+   of the *tls.Config it is given — that object is mail.Client.tlsconfig, the CALLER's config, shared by every
+   connection the Client dials; it may Clone first); the methods of mail.Client write only the delivery flag of the
+   Msg being sent and the local isEnc of the dial *)
+Definition ob_no_shared_pointee_writes : bool :=
+  forallb (fun w : lname * lname => match w with (fn, lhs) =>
+     negb (is_prefix (bs "smtp:") fn)
+     && (negb (is_prefix (bs "Client.") fn) || name_is "message.isDelivered" lhs || name_is "*isEnc" lhs) end)
+   param_pointee_writes.
+
 (* model level: objects guarded by m, used by the exclusivity theorem *)
 Definition guarded_by (prot : obj -> protection) (m : N) (e : event) : bool :=
   match access e with
